@@ -240,7 +240,7 @@ CHECKS["C09"] = {
     "thorough": {"shards": 16, "checks": 10000},
     "rule": "rapid-generated interleavings, on a non-full MapPollard started fresh (TotalRows from {0,1,2,3,4,5,7,63}) or from bare roots of a generated state "
             "(NewMapPollardFromRoots; for a third of those the undo records of the EARLIER blocks are available as well, so that Undo steps take the forest back behind the snapshot it was started from), of: block (Verify(remember) of the deletions, Modify with generated Remember flags), Verify(remember), Ingest and GetMissingPositions+VerifyPartialProof(remember) of "
-            "arbitrary live sets with honest proofs (1 call in 12 with EMPTY arguments, 1 in 12 a proof with one wrong hash given to Verify(remember) - refused or not, nothing false may be stored), Prune of subsets of the cache, Undo, and Modify calls the forest must REFUSE (remembered leaves followed by a live leaf it does not remember; afterwards the remembered ones are still remembered and provable). The harness tracks the expected remembered set. After EVERY "
+            "arbitrary live sets with honest proofs (1 call in 12 with EMPTY arguments, 1 in 12 a proof with one wrong hash given to Verify(remember) - refused or not, nothing false may be stored), Prune of subsets of the cache, Undo, restart (one step in ten: the forest is written out and replaced by what its own bytes restore to), and Modify calls the forest must REFUSE (remembered leaves followed by a live leaf it does not remember; afterwards the remembered ones are still remembered and provable). The harness tracks the expected remembered set. After EVERY "
             "operation, with the model laid out in TotalRows coordinates: every stored (position,hash) is a true node hash (roots may be zero); the cache "
             "holds exactly the remembered leaves at their true positions; required (roots, remembered leaves, canonical proof positions) is a subset of "
             "stored, which is a subset of allowed (required plus path positions and their siblings); Prove of 6 probe sub-lists equals the canonical proof. Non-trivial: "
